@@ -198,7 +198,7 @@ def plan(ctx):
         if ctx.quick:
             shapes = p0 + p1 + fam.select(p2, 100, ctx.seed, name)
         else:
-            shapes = p0 + p1 + fam.select(p2, 6000, ctx.seed, name) + fam.select(fam.prop(3), 1500, ctx.seed, name)
+            shapes = p0 + p1 + fam.select(p2, 3000, ctx.seed, name) + fam.select(fam.prop(3), 800, ctx.seed, name)
         # split per logic into chunks for load balance
         n = 4 if ctx.quick else 16
         if ctx.quick:
